@@ -45,6 +45,7 @@ class RenderContext:
     __slots__ = (
         "template",
         "globals",
+        "root_globals",
         "disabled_tags",
         "parent",
         "_copy_depth",
@@ -69,9 +70,13 @@ class RenderContext:
         copy_depth: int = 0,
         loop_iteration_carry: int = 1,
         local_namespace_carry: int = 0,
+        root_globals: Mapping[str, object] | None = None,
     ) -> None:
         self.template = template
         self.globals = global_data if global_data is not None else {}
+        # Global data of the render that this context belongs to. The globals of an
+        # isolated copy also hold the arguments it was given.
+        self.root_globals = root_globals if root_globals is not None else self.globals
         self.disabled_tags = disabled_tags or set()
         self.parent = parent
         self._copy_depth = copy_depth
@@ -377,6 +382,7 @@ class RenderContext:
                 parent=self,
                 loop_iteration_carry=loop_iteration_carry,
                 local_namespace_carry=self.get_size_of_locals(),
+                root_globals=self.root_globals,
             )
             # This might need to be generalized so the caller can specify which
             # tag namespaces need to be copied.
@@ -384,12 +390,14 @@ class RenderContext:
         else:
             ctx = self.__class__(
                 template or self.template,
-                global_data=ReadOnlyChainMap(namespace, self.globals),
+                # Arguments of an enclosing partial or macro are not global data.
+                global_data=ReadOnlyChainMap(namespace, self.root_globals),
                 disabled_tags=disabled_tags,
                 copy_depth=self._copy_depth + 1,
                 parent=self,
                 loop_iteration_carry=loop_iteration_carry,
                 local_namespace_carry=self.get_size_of_locals(),
+                root_globals=self.root_globals,
             )
 
         ctx.template = template or self.template
